@@ -2,13 +2,21 @@
 C14  Forks of a hashed tree can be used concurrently.
 
 Model H threads (`ZtypV/Model/Heap.lean`, `Sys`): a shared base heap `B` — the structure the forks
-have in common, hashed beforehand: `AllMemo B` — plus one private heap per goroutine.  Goroutine
-`i` runs an arbitrary poke-free client `p i` of package `tree` (reads, allocations = mutations,
-hash-tree-root requests) against `shared ++ priv_i`, with its own hash function `hs i` (the
-package-level `Hash` or a per-goroutine `GetHashFn()`).  A `MerkleRoot` step on a shared pair with
-unset memo WOULD write the shared heap — `Sys.step` writes the first `B.size` cells of the
-thread's heap back to `shared`, so the model can exhibit that race
-(`C14_unhashed_counterexample`).  The zero nodes and type defaults are ordinary (leaf) cells of `B`.
+have in common — plus one private heap per goroutine.  Goroutine `i` runs an arbitrary client
+`p i` of package `tree` (reads, allocations = mutations, hash-tree-root requests) against
+`shared ++ priv_i`, with its own hash function `hs i` (the package-level `Hash` or a
+per-goroutine `GetHashFn()`).  A `MerkleRoot` step on a shared pair with unset memo WOULD write the
+shared heap — `Sys.step` writes the first `B.size` cells of the thread's heap back to `shared`, so
+the model can exhibit that race (`C14_unhashed_counterexample`).  The zero nodes and type defaults
+are ordinary (leaf) cells of `B`.
+
+"Hashed beforehand" in two strengths:
+* `…_reach` theorems: every thread `i` starts from a set `R i` of shared nodes, each fully hashed
+  (`FullyMemo B a`: every pair reachable from it has its memo set), and is a `Safe (R i)` client: it
+  uses only addresses it legitimately holds (start nodes, own allocations, children revealed by
+  reads — a Go client cannot fabricate pointers).  `B` may contain unhashed garbage elsewhere.
+* plain theorems: every pair of `B` is hashed (`AllMemo B`), clients are arbitrary poke-free
+  programs (they may even name addresses they were never given).
 
 What the model cannot exhibit: the Go memory model, compiler reordering, the race detector's
 happens-before sampling.  The theorems are about the accesses as the source performs them, at the
@@ -20,14 +28,73 @@ import ZtypV.Proofs.HeapThreads
 namespace ZtypV.Props.C14
 open ZtypV ZtypV.H
 
+/-! ### premise: the threads' start nodes are fully hashed -/
+
 /-- In every interleaving the shared heap stays exactly the base heap, and no thread ever writes an
     address below `B.size`. -/
+theorem C14_no_shared_write_reach (hs : Nat → HashFn) {B : Heap} (hw : WF B) {R : Nat → Nat → Prop}
+    (hR : ∀ i a, R i a → a < B.size ∧ FullyMemo B a) {p : Nat → Prog α}
+    (hsafe : ∀ i, Safe (R i) (p i)) (sched : List Nat) :
+    ((Sys.init B p).exec hs sched).shared = B
+      ∧ ∀ i y, y ∈ (((Sys.init B p).exec hs sched).threads i).tr.writes → B.size ≤ y :=
+  let c := c14_core hs (fun i => stable_reach (hs i) B) (sysInv_init_reach hw hR hsafe) sched
+  ⟨c.1, c.2.1⟩
+
+/-- Race freedom: in every interleaving, a location written by thread `i` is never accessed (read
+    or written) by another thread `j`. -/
+theorem C14_race_free_reach (hs : Nat → HashFn) {B : Heap} (hw : WF B) {R : Nat → Nat → Prop}
+    (hR : ∀ i a, R i a → a < B.size ∧ FullyMemo B a) {p : Nat → Prog α}
+    (hsafe : ∀ i, Safe (R i) (p i)) (sched : List Nat) (i j : Nat) (hij : i ≠ j) (l : Loc) (k : Acc)
+    (hwi : (l, Acc.write) ∈ (((Sys.init B p).exec hs sched).threads i).locs B.size i) :
+    (l, k) ∉ (((Sys.init B p).exec hs sched).threads j).locs B.size j :=
+  (c14_core hs (fun i => stable_reach (hs i) B) (sysInv_init_reach hw hR hsafe) sched).2.2.1 i j hij l k hwi
+
+/-- Sequential consistency of each fork: after any schedule, the complete state of thread `i`
+    (remaining program or result, private heap, trace of accesses and hash calls) is that of thread `i`
+    running alone on `B` for as many primitives as the schedule gave it. -/
+theorem C14_sequential_reach (hs : Nat → HashFn) {B : Heap} (hw : WF B) {R : Nat → Nat → Prop}
+    (hR : ∀ i a, R i a → a < B.size ∧ FullyMemo B a) {p : Nat → Prog α}
+    (hsafe : ∀ i, Safe (R i) (p i)) (sched : List Nat) (i : Nat) :
+    ((Sys.init B p).exec hs sched).threads i
+      = soloN (hs i) B ((Sys.init B p).threads i) (sched.count i) :=
+  (c14_core hs (fun i => stable_reach (hs i) B) (sysInv_init_reach hw hR hsafe) sched).2.2.2.1 i
+
+/-- … and a thread that has finished observed exactly the result of the sequential (big-step) run of
+    its program on the base heap, built the same private cells and performed the same accesses. -/
+theorem C14_results_reach (hs : Nat → HashFn) {B : Heap} (hw : WF B) {R : Nat → Nat → Prop}
+    (hR : ∀ i a, R i a → a < B.size ∧ FullyMemo B a) {p : Nat → Prog α}
+    (hsafe : ∀ i, Safe (R i) (p i)) (sched : List Nat) (i : Nat) (a : α)
+    (hd : (((Sys.init B p).exec hs sched).threads i).st = .done a) :
+    (run (hs i) (p i) B).1 = some a
+      ∧ (run (hs i) (p i) B).2.1 = B ++ (((Sys.init B p).exec hs sched).threads i).priv
+      ∧ (run (hs i) (p i) B).2.2 = (((Sys.init B p).exec hs sched).threads i).tr :=
+  (c14_core hs (fun i => stable_reach (hs i) B) (sysInv_init_reach hw hR hsafe) sched).2.2.2.2 i a hd
+
+/-- non-vacuity on a base heap with unhashed garbage (pair 5): node 4 is fully hashed, thread 0
+    mutates and hashes its fork, thread 1 hashes -/
+example : ∀ i y, y ∈ (((Sys.init exHeapG exThreads).exec (fun _ => exHash) [0, 1, 0, 0, 1, 0, 0]).threads i).tr.writes
+    → exHeapG.size ≤ y := by
+  refine (C14_no_shared_write_reach (fun _ => exHash) (wfB_sound (by decide))
+    (R := fun _ z => z = 4) ?_ safe_exThreads _).2
+  intro i a ha
+  subst ha
+  exact ⟨by decide, fullyMemo_of_top (memoClosedB_sound (by decide)) (topMemoB_sound (by decide))⟩
+
+example : ¬ AllMemo exHeapG := by
+  intro hall
+  exact hall 5 z0 0 0 (by decide) rfl
+
+example : (((Sys.init exHeapG exThreads).exec (fun _ => exHash) [0, 1, 0, 0, 1, 0, 0]).threads 0).tr.writes
+    = [6, 7, 7] := by decide
+
+/-! ### premise: the whole base heap is hashed, arbitrary poke-free clients -/
+
 theorem C14_no_shared_write (hs : Nat → HashFn) {B : Heap} (hw : WF B) (hB : AllMemo B)
     {p : Nat → Prog α} (hnp : ∀ i, NoPoke (p i)) (sched : List Nat) :
     ((Sys.init B p).exec hs sched).shared = B
-      ∧ ∀ i y, y ∈ (((Sys.init B p).exec hs sched).threads i).tr.writes → B.size ≤ y := by
-  obtain ⟨inv, _⟩ := sys_exec_inv hs hB sched (sysInv_init hw hnp)
-  exact ⟨inv.shared, fun i y hy => (inv.good i).wr y hy⟩
+      ∧ ∀ i y, y ∈ (((Sys.init B p).exec hs sched).threads i).tr.writes → B.size ≤ y :=
+  let c := c14_core hs (fun i => stable_all (hs i) hB) (sysInv_init_all hw hnp) sched
+  ⟨c.1, c.2.1⟩
 
 /-- non-vacuity: thread 0 mutates and hashes (writing its private cells 5, 6), thread 1 hashes -/
 example : ((Sys.init exHeapAll exThreads).exec (fun _ => exHash) [0, 1, 0, 0, 1, 0, 0]).shared = exHeapAll
@@ -39,47 +106,36 @@ example : ∀ i y, y ∈ (((Sys.init exHeapAll exThreads).exec (fun _ => exHash)
   (C14_no_shared_write (fun _ => exHash) (wfB_sound (by decide)) (allMemoB_sound (by decide))
     noPoke_exThreads _).2
 
-/-- Race freedom: in every interleaving, a location written by thread `i` is never accessed (read
-    or written) by another thread `j`. -/
 theorem C14_race_free (hs : Nat → HashFn) {B : Heap} (hw : WF B) (hB : AllMemo B)
     {p : Nat → Prog α} (hnp : ∀ i, NoPoke (p i)) (sched : List Nat) (i j : Nat) (hij : i ≠ j)
     (l : Loc) (k : Acc)
     (hwi : (l, Acc.write) ∈ (((Sys.init B p).exec hs sched).threads i).locs B.size i) :
-    (l, k) ∉ (((Sys.init B p).exec hs sched).threads j).locs B.size j := by
-  obtain ⟨inv, _⟩ := sys_exec_inv hs hB sched (sysInv_init hw hnp)
-  obtain ⟨m, rfl⟩ := locs_write_priv (inv.good i) hwi
-  intro hj
-  exact locs_not_priv_other hij hj m rfl
+    (l, k) ∉ (((Sys.init B p).exec hs sched).threads j).locs B.size j :=
+  (c14_core hs (fun i => stable_all (hs i) hB) (sysInv_init_all hw hnp) sched).2.2.1 i j hij l k hwi
 
+/-- the hypothesis of race freedom is inhabited: thread 0 does write (its private cell 1), thread 1
+    does read (the shared node 4) -/
 example : (Loc.priv 0 1, Acc.write) ∈
     (((Sys.init exHeapAll exThreads).exec (fun _ => exHash) [0, 1, 0, 0, 1, 0, 0]).threads 0).locs exHeapAll.size 0
     ∧ (Loc.shared 4, Acc.read) ∈
     (((Sys.init exHeapAll exThreads).exec (fun _ => exHash) [0, 1, 0, 0, 1, 0, 0]).threads 1).locs exHeapAll.size 1 := by
   decide
 
-/-- Sequential consistency of each fork: after any schedule, the complete state of thread `i`
-    (remaining program or result, private heap, trace of accesses and hash calls) is that of thread `i`
-    running alone on `B` for as many primitives as the schedule gave it. -/
 theorem C14_sequential (hs : Nat → HashFn) {B : Heap} (hw : WF B) (hB : AllMemo B)
     {p : Nat → Prog α} (hnp : ∀ i, NoPoke (p i)) (sched : List Nat) (i : Nat) :
     ((Sys.init B p).exec hs sched).threads i
       = soloN (hs i) B ((Sys.init B p).threads i) (sched.count i) :=
-  (sys_exec_inv hs hB sched (sysInv_init hw hnp)).2 i
+  (c14_core hs (fun i => stable_all (hs i) hB) (sysInv_init_all hw hnp) sched).2.2.2.1 i
 
-/-- … and a thread that has finished observed exactly the result of the sequential (big-step) run of
-    its program on the base heap, built the same private cells and performed the same accesses. -/
 theorem C14_results (hs : Nat → HashFn) {B : Heap} (hw : WF B) (hB : AllMemo B)
     {p : Nat → Prog α} (hnp : ∀ i, NoPoke (p i)) (sched : List Nat) (i : Nat) (a : α)
     (hd : (((Sys.init B p).exec hs sched).threads i).st = .done a) :
     (run (hs i) (p i) B).1 = some a
       ∧ (run (hs i) (p i) B).2.1 = B ++ (((Sys.init B p).exec hs sched).threads i).priv
-      ∧ (run (hs i) (p i) B).2.2 = (((Sys.init B p).exec hs sched).threads i).tr := by
-  rw [C14_sequential hs hw hB hnp sched i] at hd ⊢
-  have hg := (sysInv_init hw hnp).good i
-  have := solo_run (hs i) hB (sched.count i) hg rfl hd
-  simp only [Sys.init, Array.append_empty, Trace.nil_app] at this ⊢
-  exact this
+      ∧ (run (hs i) (p i) B).2.2 = (((Sys.init B p).exec hs sched).threads i).tr :=
+  (c14_core hs (fun i => stable_all (hs i) hB) (sysInv_init_all hw hnp) sched).2.2.2.2 i a hd
 
+/-- thread 0 has finished under this schedule, with the result of its sequential run -/
 example : (((Sys.init exHeapAll exThreads).exec (fun _ => exHash) [0, 1, 0, 0, 1, 0, 0]).threads 0).st.result
       = (run exHash exClient exHeapAll).1
     ∧ (((Sys.init exHeapAll exThreads).exec (fun _ => exHash) [0, 1, 0, 0, 1, 0, 0]).threads 0).st.result.isSome := by
